@@ -19,7 +19,7 @@ TOLERANCES = {
 }
 ASSUMPTIONS = ["reference model trusted after self-test", "information matrices are symmetric (generator symmetrises exactly)"]
 
-INFO_KINDS = ["spd", "spd", "spd", "psd", "indef", "diag", "ident", "blockdiag"]
+INFO_KINDS = ["spd", "spd", "spd", "psd", "zero-rowcol", "indef", "diag", "ident", "blockdiag"]
 
 
 @S.composite
@@ -168,7 +168,7 @@ def check(case, ctx):
         return
 
     # (e) PSD => chi2 >= -tol
-    if ik in ("spd", "psd", "diag", "ident", "blockdiag"):
+    if ik in ("spd", "psd", "zero-rowcol", "diag", "ident", "blockdiag"):
         chi = float(edge.calc_chi2())
         if not (chi >= -tol):
             return ctx.fail("chi2-negative-for-psd", "chi2=%r < 0 with %s information" % (chi, ik))
@@ -296,6 +296,18 @@ def _check_graph(case, ctx):
     A = sum(abs(float(e.calc_chi2())) for e in g._edges)
     if not (abs(chi_g - own_sum) <= 1e-12 * A + 1e-300):
         return ctx.fail("graph-chi2-vs-own-edge-sum", "Graph.calc_chi2=%r, sum of its edges' calc_chi2=%r" % (chi_g, own_sum))
+    # history: optimize() with every vertex fixed moves nothing; afterwards the graph chi2 is still the sum over ALL edges
+    from ..graphcheck import optimize_quiet
+
+    for v in g._vertices:
+        v.fixed = True
+    before = [gs.bits(v.pose) for v in g._vertices]
+    optimize_quiet(g, tol=0.0, max_iter=1, fix_first_pose=False, verbose=False)
+    if [gs.bits(v.pose) for v in g._vertices] != before:
+        return ctx.fail("all-fixed-optimize-moved-a-vertex", "optimize() with every vertex fixed changed a pose")
+    chi_after = float(g.calc_chi2())
+    if not (abs(chi_after - total) <= tol_total + 1e-300):
+        return ctx.fail("graph-chi2-vs-reference-sum", "after an optimize() call with all vertices fixed: Graph.calc_chi2=%r, sum of reference edge chi2=%r" % (chi_after, total))
     # history: a second state of the same graph object (vertices moved) must give the chi2 of that state
     if case.get("poses_b"):
         for v, p in zip(g._vertices, case["poses_b"] + case["lms_b"]):
